@@ -39,6 +39,10 @@ Max(a, b) == IF a > b THEN a ELSE b
 Upd(f, x, v) == [y \in DOMAIN f \cup {x} |-> IF y = x THEN v ELSE f[y]]
 Range(s) == {s[i] : i \in DOMAIN s}
 
+\* signatures may carry a "#detail" suffix (numbers involved) for the reader of a trace verdict; model checking
+\* configurations switch it off (CONSTANT WithDetail <- ...) so that signatures are a finite set
+WithDetail == TRUE
+Det(s) == IF WithDetail THEN s ELSE ""
 Sig3(p, a, b) == p \o "|" \o a \o "|" \o b
 Sig4(p, a, b, c) == p \o "|" \o a \o "|" \o b \o "|" \o c
 
@@ -47,22 +51,29 @@ Init(c) ==
   [ cfg   |-> c,             \* [fh, hostino, no_open, no_opendir, via, tag, kind, base[fds,inodes,handles,cookies]]
     refs  |-> <<>>,          \* file id -> entries delivered minus forgotten (saturating)
     num   |-> <<>>,          \* file id -> number id (sticky)
+    at    |-> <<>>,          \* number id -> files that were ever delivered under it (index of num)
     alive |-> {},            \* files that have a name on the host now
-    nl    |-> <<>>,          \* their link counts
+    nl    |-> {},            \* their link counts: set of <<file id, nlink>>
     ghost |-> {},            \* numbers A says nothing about (file-handle mode, unlinked while referenced)
+    glive |-> {},            \* ghost numbers whose inode object was still there at the last probe (for the census)
     hnd   |-> <<>>,          \* live handles: handle id -> number id
     base  |-> c.base,
     susp  |-> "-",           \* operation blamed for a surplus found at the next quiescent point
     rank  |-> 0,
+    up    |-> TRUE,          \* FALSE between destroy and the next successful init: nothing is claimed
+    leakop|-> "-",           \* operation after which an unexplained inode object first appeared
+    seen  |-> {},            \* numbers probed so far
+    slack |-> 0,             \* inode objects beyond root + valid numbers that were already reported
     lastop|-> "start",
     succ  |-> <<>>,          \* directory number id -> (cookie -> <<name, offset>> | NoEnt)
     nameoff |-> <<>>,        \* directory -> name -> offset   (pairwise distinct names / offsets)
     offname |-> <<>>,        \* directory -> offset -> name
     lst   |-> <<>>,          \* directory -> set of <<name, type>> on the host (logged)
+    names |-> <<>>,          \* directory -> set of names on the host
     raw   |-> <<>>,          \* directory -> raw host stream incl. "." and ".." (classification only)
     viol  |-> {} ]
 
-FilesAt(S, k) == {f \in DOMAIN S.num : S.num[f] = k /\ Get(S.refs, f, 0) > 0} \cup (IF k = ROOT THEN {RootF} ELSE {})
+FilesAt(S, k) == {f \in Get(S.at, k, {}) : S.num[f] = k /\ Get(S.refs, f, 0) > 0} \cup (IF k = ROOT THEN {RootF} ELSE {})
 Valid(S, k) == FilesAt(S, k) # {}
 ValidNums(S) == {S.num[f] : f \in {g \in DOMAIN S.num : Get(S.refs, g, 0) > 0}} \ {ROOT}
 Quiescent(S) == DOMAIN S.hnd = {} /\ \A f \in DOMAIN S.refs : S.refs[f] = 0
@@ -71,19 +82,23 @@ Tracked(S) == S.cfg.via # "pseudo"      \* pseudo directories have no lookup cou
 (* ---------------------------------------- Refs (C08) ---------------------------------------- *)
 \* an entry for host file f carrying number k was delivered to the client by operation op
 Entry(S, op, f, k) ==
-  LET bad == (IF f = 0 THEN {Sig3("C08", op, "entry-for-no-host-file")} ELSE {})
+  LET bad0 == (IF f = 0 THEN {Sig3("C08", op, "entry-for-no-host-file")} ELSE {})
          \cup (IF f # 0 /\ f \in DOMAIN S.num /\ S.num[f] # k /\ k \notin S.ghost /\ S.num[f] \notin S.ghost
                THEN {Sig3("C08", op, "number-changed")} ELSE {})
          \cup (IF f # 0 /\ k \notin S.ghost /\ FilesAt(S, k) \ {f} # {}
                THEN {Sig3("C08", op, "number-shared")} ELSE {})
+      bad == {x \o Det("#file " \o ToString(f) \o " number " \o ToString(k)) : x \in bad0}
   IN IF ~Tracked(S) THEN S
      ELSE IF f = 0 \/ f = RootF THEN [S EXCEPT !.viol = @ \cup bad]
-     ELSE [S EXCEPT !.refs = Upd(@, f, Get(@, f, 0) + 1), !.num = Upd(@, f, k), !.viol = @ \cup bad]
+     ELSE [S EXCEPT !.refs = Upd(@, f, Get(@, f, 0) + 1), !.num = Upd(@, f, k), !.at = Upd(@, k, Get(@, k, {}) \cup {f}), !.viol = @ \cup bad]
 
 \* forget(k, c): saturating, root exempt
 Forget(S, k, c) ==
-  IF k = ROOT THEN S
-  ELSE [S EXCEPT !.refs = [f \in DOMAIN @ |-> IF S.num[f] = k THEN (IF @[f] > c THEN @[f] - c ELSE 0) ELSE @[f]]]
+  LET RECURSIVE Dec(_, _)
+      Dec(r, X) == IF X = {} THEN r
+                   ELSE LET f == CHOOSE x \in X : TRUE
+                        IN Dec(IF S.num[f] = k THEN [r EXCEPT ![f] = IF @ > c THEN @ - c ELSE 0] ELSE r, X \ {f})
+  IN IF k = ROOT THEN S ELSE [S EXCEPT !.refs = Dec(@, Get(S.at, k, {}))]
 
 RECURSIVE ForgetAll(_, _)
 ForgetAll(S, items) == IF items = <<>> THEN S ELSE ForgetAll(Forget(S, Head(items)[1], Head(items)[2]), Tail(items))
@@ -92,30 +107,46 @@ ForgetAll(S, items) == IF items = <<>> THEN S ELSE ForgetAll(Forget(S, Head(item
 HostSet(S, rows) ==
   LET al == {r[1] : r \in Range(rows)}
       g  == IF S.cfg.fh THEN {S.num[f] : f \in {x \in DOMAIN S.num : Get(S.refs, x, 0) > 0 /\ x \notin al}} ELSE {}
-  IN [S EXCEPT !.alive = al, !.nl = [f \in al |-> (CHOOSE r \in Range(rows) : r[1] = f)[2]], !.ghost = @ \cup g]
+  IN [S EXCEPT !.alive = al, !.nl = Range(rows), !.ghost = @ \cup g]
 
-\* getattr on number k after operation S.lastop: row = <<k, status, refcount | -1, file id of the attributes, nlink>>
+\* getattr on number k after operation S.lastop: row = <<k, status, refcount | -1, file id of the attributes | -1, nlink>>
+\* After a discrepancy has been reported A adopts the server's count for that number (one defect = one report,
+\* attributed to the operation after which it was first seen).
 ProbeRow(S, row) ==
   LET k == row[1]  st == row[2]  rc == row[3]  af == row[4]  nlk == row[5]
       op == S.lastop
       fs == FilesAt(S, k)
-      want == LET RECURSIVE Sum(_)
-                  Sum(X) == IF X = {} THEN 0 ELSE LET x == CHOOSE y \in X : TRUE IN Get(S.refs, x, 0) + Sum(X \ {x})
-              IN Sum(fs \ {RootF})
+      RECURSIVE Sum(_)
+      Sum(X) == IF X = {} THEN 0 ELSE LET x == CHOOSE y \in X : TRUE IN Get(S.refs, x, 0) + Sum(X \ {x})
+      want == IF fs \ {RootF} = {} THEN -1 ELSE Sum(fs \ {RootF})
       rdp == op \in {"readdir", "readdirplus"}
       refsig == {Sig3("C08", op, "refcount")} \cup (IF rdp THEN {Sig3("C16", S.cfg.via, IF op = "readdirplus" THEN "plus-refs" ELSE "plain-refs")} ELSE {})
-      bad ==
-        IF k \in S.ghost \/ ~Tracked(S) THEN {}
+      skip == k \in S.ghost \/ ~Tracked(S) \/ ~S.up
+      \* a number seen for the first time whose count is too high while an already reported surplus inode object is
+      \* unexplained: that object has become visible, it is not reported a second time
+      absorb == k \notin S.seen /\ S.slack > 0 /\ want >= 1 /\ rc > want
+      bad0 ==
+        IF skip THEN {}
         ELSE IF k = ROOT THEN (IF st # "OK" THEN {Sig3("C08", op, "root-unresolvable")} ELSE {})
         ELSE IF fs # {} THEN
                (IF st # "OK" THEN {Sig3("C08", op, "valid-number-fails")} ELSE {})
           \cup (IF st = "OK" /\ af # -1 /\ af \notin fs THEN {Sig3("C08", op, "wrong-file")} ELSE {})
-          \cup (IF st = "OK" /\ af \in fs /\ af \in S.alive /\ nlk # S.nl[af] THEN {Sig3("C08", op, "wrong-attr")} ELSE {})
-          \cup (IF rc # want THEN refsig ELSE {})
-        ELSE
-               (IF st # "EBADF" THEN {Sig3("C08", op, "stale-number-resolves")} ELSE {})
-          \cup (IF rc # -1 THEN {Sig3("C08", op, "inode-not-released")} \cup (IF rdp THEN refsig ELSE {}) ELSE {})
-  IN [S EXCEPT !.viol = @ \cup bad]
+          \cup (IF st = "OK" /\ af \in fs /\ af \in S.alive /\ <<af, nlk>> \notin S.nl THEN {Sig3("C08", op, "wrong-attr")} ELSE {})
+          \cup (IF rc # want /\ st = "OK" /\ ~absorb THEN refsig ELSE {})
+        ELSE IF st # "EBADF" THEN {Sig3("C08", op, "stale-number-resolves")} \cup (IF rdp THEN refsig ELSE {})
+        ELSE IF rc # -1 THEN {Sig3("C08", op, "inode-not-released")} ELSE {}
+      bad == {x \o Det("#number " \o ToString(k) \o " count " \o ToString(rc) \o " expected " \o ToString(want)) : x \in bad0}
+      owners == {f \in Get(S.at, k, {}) : S.num[f] = k}
+      tgt == IF fs \ {RootF} # {} THEN CHOOSE f \in fs \ {RootF} : TRUE
+             ELSE IF af > 0 /\ af # RootF THEN af
+             ELSE IF owners # {} THEN CHOOSE f \in owners : TRUE ELSE 0
+      resync == ~skip /\ k # ROOT /\ rc # want
+  IN IF k \in S.ghost THEN [S EXCEPT !.seen = @ \cup {k}, !.glive = IF rc # -1 THEN @ \cup {k} ELSE @ \ {k}]
+     ELSE IF ~resync THEN [S EXCEPT !.viol = @ \cup bad, !.seen = @ \cup {k}]
+     ELSE IF tgt = 0 THEN [S EXCEPT !.viol = @ \cup bad, !.ghost = @ \cup {k}, !.seen = @ \cup {k}]
+     ELSE [S EXCEPT !.viol = @ \cup bad, !.seen = @ \cup {k},
+                    !.refs = [f \in DOMAIN @ \cup {tgt} |-> IF f = tgt THEN Max(rc, 0) ELSE IF f \in owners THEN 0 ELSE @[f]],
+                    !.num = Upd(@, tgt, k), !.at = Upd(@, k, Get(@, k, {}) \cup {tgt})]
 
 RECURSIVE ProbeRows(_, _)
 ProbeRows(S, rows) == IF rows = <<>> THEN S ELSE ProbeRows(ProbeRow(S, Head(rows)), Tail(rows))
@@ -124,10 +155,11 @@ ProbeRows(S, rows) == IF rows = <<>> THEN S ELSE ProbeRows(ProbeRow(S, Head(rows
 DirOps == {"readdir", "readdirplus", "releasedir", "opendir", "fsyncdir"}
 HandleMode(S, op) == Tracked(S) /\ (IF op \in DirOps THEN ~S.cfg.no_opendir ELSE ~S.cfg.no_open)
 \* blame for a surplus found at the next quiescent point: injected operation > destroy > first failed operation
-Rank(S, op, status, failat) == IF failat >= 0 THEN 3 ELSE IF op = "destroy" THEN 2 ELSE IF status # "OK" THEN 1 ELSE 0
+Rank(S, op, status, failat) == IF failat >= 0 THEN 3 ELSE IF op \in {"destroy", "init"} THEN 2 ELSE IF status # "OK" THEN 1 ELSE 0
+Label(op, status) == IF status = "OK" THEN op ELSE op \o "-failed"
 Noted(S, op, status, failat) ==
   LET r == Rank(S, op, status, failat) IN
-  [S EXCEPT !.lastop = op, !.susp = IF r > S.rank THEN op ELSE @, !.rank = Max(@, r)]
+  [S EXCEPT !.lastop = Label(op, status), !.susp = IF r > S.rank THEN Label(op, status) ELSE @, !.rank = Max(@, r)]
 
 \* open / opendir / create returned handle h (0 = none) for number k
 OpenH(S, op, k, h) ==
@@ -152,18 +184,29 @@ ReleaseH(S, op, k, h, st) ==
                     !.hnd = IF st = "OK" /\ h \in DOMAIN @ THEN [x \in DOMAIN @ \ {h} |-> @[x]] ELSE @]
 
 Destroy(S) ==
-  [S EXCEPT !.hnd = <<>>, !.refs = <<>>, !.num = <<>>, !.ghost = {}, !.succ = <<>>, !.nameoff = <<>>, !.offname = <<>>]
+  [S EXCEPT !.up = FALSE, !.susp = "destroy", !.rank = 2, !.leakop = "-", !.hnd = <<>>, !.refs = <<>>, !.num = <<>>, !.at = <<>>, !.ghost = {}, !.glive = {}, !.slack = 0, !.seen = {}, !.succ = <<>>, !.nameoff = <<>>, !.offname = <<>>]
+
+\* init answered st
+Inited(S, st) == IF st = "OK" THEN [S EXCEPT !.up = TRUE] ELSE S
 
 \* census r = [fds, inodes, handles, cookies] after the last operation
 ResCheck(S, r) ==
+  IF ~S.up THEN S ELSE
   LET q == Quiescent(S)
       over == {x \in {"fds", "inodes", "handles", "cookies"} : r[x] > S.base[x]}
-      b15 == IF q THEN {Sig4("C15", S.cfg.tag, S.susp, x) : x \in over} ELSE {}
-      b08 == IF Tracked(S) /\ S.ghost = {} /\ r.inodes # 1 + Cardinality(ValidNums(S))
-             THEN {Sig3("C08", S.lastop, IF r.inodes > 1 + Cardinality(ValidNums(S)) THEN "inode-objects-surplus" ELSE "inode-objects-missing")} ELSE {}
+      \* "its resources are released": live inode objects = root + numbers with a positive count (S.slack: already reported)
+      delta == r.inodes - (1 + Cardinality(ValidNums(S) \ S.ghost) + Cardinality(S.glive \cap S.ghost))
+      chk08 == Tracked(S)
+      newleak == chk08 /\ delta > S.slack
+      lk == IF newleak /\ S.leakop = "-" THEN S.lastop ELSE S.leakop
+      b15 == IF q THEN {Sig4("C15", S.cfg.tag, IF lk # "-" THEN lk ELSE S.susp, x) : x \in over} ELSE {}
+      b08 == IF chk08 /\ delta > S.slack THEN {Sig3("C08", S.lastop, "inode-objects-surplus")}
+             ELSE IF chk08 /\ delta < 0 /\ delta < S.slack THEN {Sig3("C08", S.lastop, "inode-objects-missing")} ELSE {}
   IN [S EXCEPT !.viol = @ \cup b15 \cup b08,
                \* a surplus is reported once: it becomes part of the baseline; a clean quiescent point clears the blame
                !.base = IF q THEN [x \in DOMAIN @ |-> Max(@[x], r[x])] ELSE @,
+               !.slack = IF chk08 THEN delta ELSE @,
+               !.leakop = IF q THEN "-" ELSE lk,
                !.susp = IF q THEN "-" ELSE @, !.rank = IF q THEN 0 ELSE @]
 
 (* -------------------------------------- DirStream (C16) ------------------------------------- *)
@@ -174,7 +217,7 @@ IsDot(n) == n = "." \/ n = ".."
 
 \* the host listing of directory d was (re)logged: names = <<name, type>>, raw = host getdents order <<name, type, off>>
 HostDir(S, d, names, raw) ==
-  [S EXCEPT !.lst = Upd(@, d, Range(names)), !.raw = Upd(@, d, raw),
+  [S EXCEPT !.lst = Upd(@, d, Range(names)), !.raw = Upd(@, d, raw), !.names = Upd(@, d, {x[1] : x \in Range(names)}),
             !.succ = Upd(@, d, <<>>), !.nameoff = Upd(@, d, <<>>), !.offname = Upd(@, d, <<>>)]
 
 \* classification of a premature empty reply at cookie c with buffer size: the raw host records that follow c are
@@ -194,6 +237,7 @@ DirReply(S, ev) ==
   LET d == ev.d   c0 == ev.off   es == ev.ents   via == S.cfg.via
       sc == Get(S.succ, d, <<>>)  no == Get(S.nameoff, d, <<>>)  on == Get(S.offname, d, <<>>)
       known == d \in DOMAIN S.lst
+      nms == Get(S.names, d, {})
       Pos(i) == IF i = 1 THEN c0 ELSE es[i - 1][3]
       Lnk(i) == <<es[i][1], es[i][3]>>
       I == DOMAIN es
@@ -209,19 +253,23 @@ DirReply(S, ev) ==
         \cup (IF \E i \in I : Pos(i) \in DOMAIN sc /\ sc[Pos(i)] # Lnk(i) THEN V("stream-order-changed") ELSE {})
         \cup (IF \E i \in I : es[i][1] \in DOMAIN no /\ no[es[i][1]] # es[i][3] THEN V("entry-twice") ELSE {})
         \cup (IF \E i \in I : es[i][3] \in DOMAIN on /\ on[es[i][3]] # es[i][1] THEN V("offset-twice") ELSE {})
-        \cup (IF \E i, j \in I : i < j /\ (es[i][1] = es[j][1] \/ es[i][3] = es[j][3]) THEN V("entry-twice") ELSE {})
-        \cup (IF \E i \in I : ~IsDot(es[i][1]) /\ es[i][1] \notin {x[1] : x \in S.lst[d]} THEN V("unknown-name") ELSE {})
-        \cup (IF \E i \in I : es[i][1] \in {x[1] : x \in S.lst[d]} /\ <<es[i][1], es[i][2]>> \notin S.lst[d] /\ ~(via = "pseudo" /\ es[i][2] = 0)
+        \cup (IF Cardinality({es[i][1] : i \in I}) # Len(es) THEN V("entry-twice") ELSE {})
+        \cup (IF Cardinality({es[i][3] : i \in I}) # Len(es) THEN V("offset-twice") ELSE {})
+        \cup (IF \E i \in I : ~IsDot(es[i][1]) /\ es[i][1] \notin nms THEN V("unknown-name") ELSE {})
+        \cup (IF \E i \in I : es[i][1] \in nms /\ <<es[i][1], es[i][2]>> \notin S.lst[d] /\ ~(via = "pseudo" /\ es[i][2] = 0)
               THEN V("wrong-type") ELSE {})
         \cup (IF es = <<>> /\ c0 \in DOMAIN sc /\ sc[c0] # NoEnt /\ enough
               THEN {Sig3("C16", via, IF DotsFill(S, d, c0, ev.size) THEN "empty-before-end|dots-fill-buffer" ELSE "empty-before-end")} ELSE {})
-      newl == [c \in {Pos(i) : i \in I} \ DOMAIN sc |-> Lnk(CHOOSE i \in I : Pos(i) = c)]
+      NI == {i \in I : Pos(i) \notin DOMAIN sc}                  \* links seen for the first time
+      NN == {i \in I : es[i][1] \notin DOMAIN no}
+      NO == {i \in I : es[i][3] \notin DOMAIN on}
+      newl == [c \in {Pos(i) : i \in NI} |-> Lnk(CHOOSE i \in NI : Pos(i) = c)]
       endl == IF es = <<>> /\ c0 \notin DOMAIN sc /\ ev.size >= MaxPacked(ev.plus) THEN (c0 :> NoEnt) ELSE <<>>
       S1 == IF ev.status # "OK" \/ ~known THEN [S EXCEPT !.viol = @ \cup bad]
             ELSE [S EXCEPT !.viol = @ \cup bad,
-                           !.succ = Upd(@, d, sc @@ newl @@ endl),
-                           !.nameoff = Upd(@, d, no @@ [n \in {es[i][1] : i \in I} |-> es[CHOOSE i \in I : es[i][1] = n][3]]),
-                           !.offname = Upd(@, d, on @@ [o \in {es[i][3] : i \in I} |-> es[CHOOSE i \in I : es[i][3] = o][1]])]
+                           !.succ = IF NI = {} /\ endl = <<>> THEN @ ELSE Upd(@, d, sc @@ newl @@ endl),
+                           !.nameoff = IF NN = {} THEN @ ELSE Upd(@, d, no @@ [n \in {es[i][1] : i \in NN} |-> es[CHOOSE i \in NN : es[i][1] = n][3]]),
+                           !.offname = IF NO = {} THEN @ ELSE Upd(@, d, on @@ [o \in {es[i][3] : i \in NO} |-> es[CHOOSE i \in NO : es[i][3] = o][1]])]
       RECURSIVE Taken(_, _)
       Taken(T, i) == IF i > Len(es) THEN T ELSE Taken(Entry(T, "readdirplus", es[i][5], es[i][4]), i + 1)
   IN IF ev.status = "OK" /\ ev.plus THEN Taken(S1, 1) ELSE S1
@@ -229,7 +277,7 @@ DirReply(S, ev) ==
 \* the scenario is over for directory d: the chain from the start must list the host directory exactly once
 DirEnd(S, d) ==
   LET sc == Get(S.succ, d, <<>>)
-      names == {x[1] : x \in Get(S.lst, d, {})}
+      names == Get(S.names, d, {})
       bound == Cardinality(names) + 2
       RECURSIVE Walk(_, _, _)
       \* result: <<"ok"|"open"|"cycle", names seen>>
